@@ -241,6 +241,10 @@ def run_case(ns, mon, c):
                 img = getattr(ct, cname)(y.copy(), (N, C, H, W), k, d, s, p)
             except Exception:
                 continue
+            if np.shape(cols) != np.shape(y) or np.shape(img) != np.shape(x):
+                viol.append(V(f"adjoint:{iname}-{cname}:shape", f"{iname} returns shape {list(np.shape(cols))} where the column matrix has shape {list(np.shape(y))} "
+                              f"(or {cname} an image of shape {list(np.shape(img))})", geometry=geo, layout=layout))
+                continue
             lhs, rhs = float(np.sum(cols * y)), float(np.sum(x * img))
             counters["adjoint_identities"] = counters.get("adjoint_identities", 0) + 1
             if abs(lhs - rhs) > 1e-10 * max(1.0, abs(lhs), float(np.sum(np.abs(cols * y)))):
